@@ -37,7 +37,7 @@ void harness(void) {
 	V_ASSUME(line <= LEN);
 #ifdef KF_SDP_TYPE_GET_END
 	/* blocked: a CRLF with fewer than two bytes behind it, and messages shorter than two bytes */
-	V_ASSUME(LEN >= 2);
+	V_ASSUME(LEN != 1);
 	for (size_t i = 0; i + 1 < LEN; i++) V_ASSUME(!(m[i] == '\r' && m[i + 1] == '\n' && i + 4 > LEN));
 #endif
 	r = sdp_msg_type_get(m, LEN, IN.type, &line, &val, &vs);
@@ -96,6 +96,16 @@ void harness(void) {
 		V_WITNESS("rejected");
 	}
 #elif T == 6	/* mpeg2_ts_pkt_is_valid: one packet of exactly LEN bytes */
+#ifdef KF_TS_AF_LEN
+	/* blocked: PSI PID (PAT/CAT/TSDT/SDT/EIT) with an adaptation field that leaves fewer than 2 bytes of the packet */
+	if (LEN >= 188) {
+		const mpeg2_ts_hdr_t *h = (const mpeg2_ts_hdr_t *)m;
+		uint32_t pid = MPEG2_TS_PID(h);
+		int psi = (pid == MPEG2_TS_PID_PAT || pid == MPEG2_TS_PID_CAT || pid == MPEG2_TS_PID_TSDT ||
+		    pid == MPEG2_TS_PID_SDT || pid == MPEG2_TS_PID_EIT);
+		V_ASSUME(!(h->afe != 0 && psi && (size_t)m[4] + 7 > LEN));
+	}
+#endif
 	r = mpeg2_ts_pkt_is_valid((const mpeg2_ts_hdr_t *)m, LEN);
 	V_ASSERT(r == 0 || r == 1, "boolean");
 	if (r) V_WITNESS("valid");
